@@ -368,6 +368,7 @@ func runResourceCase(c rCase) (ev rEvent, ok bool) {
 }
 
 func resourceMain(args []string) {
+	timeStrict = true // values stay in memory: a time comes back with its zone offset
 	fs := flag.NewFlagSet("resource", flag.ExitOnError)
 	gen := fs.String("gen", "", "TLC generation outputs (ALPHA, EQ, S, W lines), comma separated")
 	out := fs.String("out", "", "output directory")
